@@ -1,2 +1,35 @@
-(** C08 placeholder *)
-From GoSh Require Import Base.Bytes.
+(** C08 — Here-document bodies are attached to the right redirection, verbatim. *)
+From GoSh Require Import Base.Bytes Proto.Confluence Proto.LTS Lex.Heredoc.
+
+(** Under every schedule of the lexer / parser pair the redirections are taken by the lexer in
+    the order the parser pushed them (the k-th body read goes to the k-th here-document operator). *)
+Theorem C08_heredoc_fifo :
+  forall (tok hd res pstate : Type) (pfeed : pstate -> tok -> pout hd pstate) (peof : pstate -> res + err)
+         (p : lprog tok) (s0 : pstate) (c : cfg tok hd res pstate),
+    steps _ (step tok hd res pstate pfeed peof) (init tok hd res pstate p s0) c ->
+    exists rest, pushed _ _ _ _ c = popped _ _ _ _ c ++ rest.
+Proof. exact heredoc_fifo. Qed.
+Print Assumptions C08_heredoc_fifo.
+
+(** For a quoted delimiter: every body whose lines differ from the delimiter is returned byte for
+    byte (an empty first line included), the delimiter line is recognised -- tab-indented too for
+    the dash form -- and reading stops right after it. *)
+Theorem C08_literal_body_verbatim :
+  forall dash delim lines dline rest acc fuel,
+    forallb (fun l => no_nl l && negb (is_delim dash delim l)) lines = true ->
+    no_nl dline = true -> is_delim dash delim dline = true -> (length lines < fuel)%nat ->
+    read_heredoc fuel dash delim (body_of lines ++ dline ++ 10%N :: rest) acc = Some (acc ++ body_of lines, dline, rest).
+Proof. exact heredoc_literal_body. Qed.
+Print Assumptions C08_literal_body_verbatim.
+
+(** A delimiter that never comes is an error (never a silently truncated body). *)
+Theorem C08_unterminated_is_error :
+  forall dash delim lines acc fuel,
+    forallb (fun l => no_nl l && negb (is_delim dash delim l)) lines = true ->
+    is_delim dash delim [] = false ->
+    read_heredoc fuel dash delim (body_of lines) acc = None.
+Proof. exact heredoc_unterminated. Qed.
+Print Assumptions C08_unterminated_is_error.
+
+(** Not proved: expanding bodies (unquoted delimiter: $, backquote, backslash scanning) and the
+    quote removal of the delimiter word; decided by the generator-driven check on the implementation. *)
